@@ -31,12 +31,13 @@ func main() {
 	poolsFile := flag.String("pools", "", "internal")
 	childOut := flag.String("childout", "", "internal")
 	from := flag.Int("from", 0, "internal")
+	genDir := flag.String("gendir", "", "internal: also run the code generators (tier-B screening)")
 	na := flag.Int("na", 0, "override: number of tier-A pools")
 	nb := flag.Int("nb", 0, "override: number of tier-B designs")
 	flag.Parse()
 
 	if *child == "tiera" {
-		childTierA(*poolsFile, *childOut, *from)
+		childTierA(*poolsFile, *childOut, *from, *genDir, *repo)
 		return
 	}
 	self, err := os.Executable()
